@@ -67,7 +67,8 @@ def rule_pair(ctx, tu, R="C02.PAIR"):
             ns = nbr_source(atom, defs)
             if ns is None:
                 # the table load written in place (or a hoisted index local inlined by the front end)
-                for d_ in f.param_names():
+                cand = list(f.param_names()) + [uname(x) for x in walk(f.body) if x.get("kind") == "VarDecl"]
+                for d_ in cand:
                     if atom == "mesh_neighbors[%r]" % (src * Poly.const(6) + Poly.sym(d_)):
                         ns = ("mesh_neighbors", [src * Poly.const(6) + Poly.sym(d_)])
                     elif atom == "mesh_neighbor_index[%r][%r]" % (src, Poly.sym(d_)):
